@@ -2,6 +2,8 @@ import UralModel.Lemmas.Quote
 import UralModel.Lemmas.QuoteIdem
 import UralModel.Lemmas.QuoteUpper
 import UralModel.Lemmas.QuoteControl
+import UralModel.Lemmas.QuoteSplit
+import UralModel.Lemmas.QuotePost
 import UralModel.Gen.QuoteTables
 import UralModel.Model.Canonicalize
 /-!
@@ -26,9 +28,23 @@ theorem tables_path_delims :
 theorem tables_auth_delims :
     ∀ b ∈ ([0x40, 0x3A, 0x2F, 0x3F, 0x23] : List UInt8), b ∈ Gen.Quote.unsafeForAuthItem := by decide
 
-/-- `& = #` delimit a query item -/
+/-- `& = #` delimit a query item, and `+` has a meaning of its own there (a space; `%2B` is a
+plus sign: FX-C01-6e09416) -/
 theorem tables_query_delims :
-    ∀ b ∈ ([0x26, 0x3D, 0x23] : List UInt8), b ∈ Gen.Quote.unsafeForQueryItem := by decide
+    ∀ b ∈ ([0x26, 0x3D, 0x23, 0x2B] : List UInt8), b ∈ Gen.Quote.unsafeForQueryItem := by decide
+
+/-- **table obligation** (the model describes the code): the model's `quoteSafeQ` — what
+`safely_quote(item, safe="/+")` leaves alone — is the set of ASCII characters the real
+`safely_quote_qsl` leaves alone in a key and in a value (probed on the function, every ASCII
+code point; `+` is in it), a stray `%` is escaped, existing escapes are kept, a missing value
+stays missing, every probed non-ASCII code point becomes the escapes of its UTF-8 bytes -/
+theorem tables_qsl_safe :
+    (∀ n, n < 0x80 → n ≠ 0x25 →
+      quoteSafeQ (Char.ofNat n) = Gen.Quote.qslQuoteSafeKey.contains n ∧
+      quoteSafeQ (Char.ofNat n) = Gen.Quote.qslQuoteSafeValue.contains n) ∧
+    quoteSafeQ '%' = false ∧ quoteSafeQ '+' = true ∧ Gen.Quote.qslQuoteShape = true ∧
+    Gen.Quote.qslQuoteEscapesNonAscii = true := by
+  refine ⟨by decide +kernel, by decide, by decide, by decide, by decide⟩
 
 /-- the four functions are `partial(unquote, only_printable=True, normalize_space=True,
 lossless=True, unsafe=UNSAFE_FOR_<component>)` and nothing else -/
@@ -156,6 +172,24 @@ theorem unquote_delimiters (U : List UInt8) (hU : (0x25 : UInt8) ∈ U) (d : Cha
     (hd : d.toNat < 0x80) (hsp : d ≠ ' ') (hdU : UInt8.ofNat d.toNat ∈ U) (s : Str) :
     (tokens (safelyUnquote U s)).count (.raw d) = (tokens s).count (.raw d) := by
   rw [(unquote_tokens U hU s).1, count_unquoteToks U d hd hsp hdU, count_escapeRaw d hd]
+
+/-- **positional form of the delimiter clause**: around a raw occurrence of a character `d`
+that can neither start nor continue an escape (not `%`, not a hex digit: every delimiter), is
+not the space and is not one `NON_PRINTABLE_RE` matches, a safe unquoter works on what precedes
+and on what follows, and leaves `d` where it is -/
+theorem unquote_delimiter_positional (U : List UInt8) (d : Char) (hd : Sep d) (hsp : d ≠ ' ')
+    (hlt : d.toNat < 0x80) (a b : Str) :
+    safelyUnquote U (a ++ d :: b) = safelyUnquote U a ++ d :: safelyUnquote U b :=
+  safelyUnquote_append_sep U hd hsp (staysEscaped_of_lt hlt) a b
+
+/-- … and when `d` is a byte of the unsafe set, no piece acquires a new raw `d`: cutting the
+output at `d` gives the unquoted pieces of the input cut at `d` — the raw `d` of the output are
+exactly those of the input, in the same order, with the same (unquoted) text between them -/
+theorem unquote_split_delimiter (U : List UInt8) (d : Char) (hd : Sep d) (hsp : d ≠ ' ')
+    (hlt : d.toNat < 0x80) (hdU : UInt8.ofNat d.toNat ∈ U) (s : Str) :
+    splitOn (safelyUnquote U s) d = (splitOn s d).map (safelyUnquote U) ∧
+    (d ∉ s → d ∉ safelyUnquote U s) :=
+  ⟨splitOn_safelyUnquote U hd hsp hlt hdU s, not_mem_safelyUnquote U hd hlt hdU s⟩
 
 /-- C0 / DEL / C1 control characters -/
 def isControl (c : Char) : Prop := c.toNat < 0x20 ∨ (0x7f ≤ c.toNat ∧ c.toNat ≤ 0x9f)
@@ -554,6 +588,134 @@ theorem quote_unquote_idempotent (U : List UInt8) (hU : (0x25 : UInt8) ∈ U) (h
     render (quoteToks (tokens (safelyUnquote U s)))
   rw [unquote_quote_unquote U hU hA, quoteToks_map_harden]
 
+/-! ## `safely_quote(string, safe=…)`
+
+`safely_quote` takes the `safe` argument of `urllib.parse.quote` (default `"/"`);
+`safely_quote_qsl` passes `safe="/+"` (FX-C01-6e09416: in a query a raw `+` is a space and `%2B` a
+plus sign).  `safelyQuoteBy f` is `safely_quote` with the set `f` of characters left alone,
+`quoteSafeIn safe` the set `quote(…, safe=safe)` leaves alone; every clause of the statement
+holds for every `safe` whose ASCII characters are printable and neither the space nor `%`
+(`safeStrOk`; `SafeSet f` in general). -/
+
+/-- `safely_quote(s)` is `safely_quote(s, safe="/")`, and the query variant is
+`safely_quote(s, safe="/+")` -/
+theorem quote_default_safe (s : Str) :
+    safelyQuote s = safelyQuoteIn ['/'] s ∧ Canonicalize.quoteQsl [(s, some s)] =
+      [(safelyQuoteIn ['/', '+'] s, some (safelyQuoteIn ['/', '+'] s))] :=
+  ⟨safelyQuote_eq_in s, rfl⟩
+
+/-- every `safe` string of printable ASCII characters other than the space and `%` gives a
+set the theorems below apply to; `"/"` and `"/+"` are such strings -/
+theorem quote_safe_sets (safe : Str) (h : safeStrOk safe = true) : SafeSet (quoteSafeIn safe) :=
+  safeSet_in h
+
+theorem quoteBy_tokens {f : Char → Bool} (hf : SafeSet f) (s : Str) :
+    tokens (safelyQuoteBy f s) = quoteToksBy f (tokens s) := tokens_safelyQuoteBy hf s
+
+/-- pure ASCII; same decoded bytes; every pre-existing escape kept as is, where it was;
+outside its escapes only characters of `f`, and no stray `%`; quoting twice is quoting once -/
+theorem quoteBy_contract {f : Char → Bool} (hf : SafeSet f) (s : Str) :
+    (∀ ch ∈ safelyQuoteBy f s, ch.toNat < 0x80) ∧
+    pctStr (safelyQuoteBy f s) = pctStr s ∧
+    (∀ a b h1 h2, isHexDigit h1 = true → isHexDigit h2 = true →
+      safelyQuoteBy f (a ++ '%' :: h1 :: h2 :: b) =
+        safelyQuoteBy f a ++ '%' :: h1 :: h2 :: safelyQuoteBy f b) ∧
+    (∀ c, Tok.raw c ∈ tokens (safelyQuoteBy f s) → f c = true) ∧
+    Tok.stray ∉ tokens (safelyQuoteBy f s) ∧
+    safelyQuoteBy f (safelyQuoteBy f s) = safelyQuoteBy f s := by
+  refine ⟨?_, ?_, fun a b h1 h2 hh1 hh2 => safelyQuoteBy_append_esc f hh1 hh2 a b, ?_, ?_, ?_⟩
+  · intro ch hch
+    simp only [safelyQuoteBy, render, quoteToksBy, List.mem_flatMap] at hch
+    obtain ⟨t', ⟨t, ht, ht'⟩, hch⟩ := hch
+    apply ascii_render_quoteTokBy hf (wf_tokens s t ht) ch
+    simp only [render, List.mem_flatMap]
+    exact ⟨t', ht', hch⟩
+  · simp only [pctStr, quoteBy_tokens hf, pct_quoteToksBy]
+  · rw [quoteBy_tokens hf]
+    intro c hc
+    simp only [quoteToksBy, List.mem_flatMap] at hc
+    obtain ⟨t, _, ht⟩ := hc
+    cases t with
+    | raw c0 =>
+      simp only [quoteTokBy] at ht
+      split at ht
+      · rename_i hq
+        simp only [List.mem_singleton, Tok.raw.injEq] at ht
+        subst ht; exact hq
+      · simp only [List.mem_map] at ht
+        obtain ⟨b, _, hb⟩ := ht
+        simp [escOfByte] at hb
+    | esc h1 h2 => simp [quoteTokBy] at ht
+    | stray => simp [quoteTokBy, hf.pct_false] at ht
+  · rw [quoteBy_tokens hf]
+    intro hc
+    exact canon_quoteToksBy hf (wf_tokens s) _ hc
+  · have h := quoteBy_tokens hf s
+    unfold safelyQuoteBy at h ⊢
+    rw [h, quoteToksBy_idem]
+
+/-- **unquote then quote**, for any `safe`: the scan of
+`safely_unquote_*(safely_quote(safely_unquote_*(s), safe))` is the scan of `safely_unquote_*(s)`
+with the raw characters that `quote` escapes and the unquoter keeps escaped spelled as escapes -/
+theorem unquote_quoteBy_unquote {f : Char → Bool} (hf : SafeSet f) (U : List UInt8)
+    (hU : (0x25 : UInt8) ∈ U) (hA : AsciiSet U) (s : Str) :
+    tokens (safelyUnquote U (safelyQuoteBy f (safelyUnquote U s))) =
+      (tokens (safelyUnquote U s)).map (hardenBy f U) := by
+  rw [tokens_safelyUnquote U hU, tokens_safelyQuoteBy hf, escapeRaw_quoteToksBy hf,
+    tokens_safelyUnquote U hU]
+  exact unquoteToks_quoteBy_unquote_hardenBy hf U hU hA _ (wf_escapeRaw (wf_tokens s))
+    (fun c hc => (raw_mem_escapeRaw hc).2)
+
+/-- … hence `safely_quote(·, safe) ∘ safely_unquote_*` is idempotent, for every string -/
+theorem quoteBy_unquote_idempotent {f : Char → Bool} (hf : SafeSet f) (U : List UInt8)
+    (hU : (0x25 : UInt8) ∈ U) (hA : AsciiSet U) (s : Str) :
+    safelyQuoteBy f (safelyUnquote U (safelyQuoteBy f (safelyUnquote U s))) =
+      safelyQuoteBy f (safelyUnquote U s) := by
+  show render (quoteToksBy f (tokens (safelyUnquote U (safelyQuoteBy f (safelyUnquote U s))))) =
+    render (quoteToksBy f (tokens (safelyUnquote U s)))
+  rw [unquote_quoteBy_unquote hf U hU hA, quoteToksBy_map_hardenBy]
+
+/-- `upper_quoted` and `safely_quote(·, safe)` can be applied in either order -/
+theorem upper_commutes_quoteBy {f : Char → Bool} (hf : SafeSet f) (s : Str) :
+    safelyQuoteBy f (upperQuoted s) = upperQuoted (safelyQuoteBy f s) :=
+  safelyQuoteBy_upperQuoted hf s
+
+/-- **a raw `+` and `%2B` are never rewritten into each other in a query item**
+(FX-C01-6e09416): the safe unquoter keeps the raw `+` where they are and `%2B` escaped (`+` is in
+`UNSAFE_FOR_QUERY_ITEM`), the quoting step of query items leaves the raw `+` alone and keeps
+`%2B` as written -/
+theorem query_plus_kept (a b : Str) :
+    (tokens (Canonicalize.unquoteQueryItem a)).count (.raw '+') = (tokens a).count (.raw '+') ∧
+    (tokens (quoteQueryItem a)).count (.raw '+') = (tokens a).count (.raw '+') ∧
+    quoteQueryItem (a ++ '+' :: b) = quoteQueryItem a ++ '+' :: quoteQueryItem b ∧
+    quoteQueryItem (a ++ '%' :: '2' :: 'B' :: b) =
+      quoteQueryItem a ++ '%' :: '2' :: 'B' :: quoteQueryItem b := by
+  refine ⟨?_, ?_, ?_, ?_⟩
+  · exact unquote_delimiters _ tables_percent_unsafe.2.2.1 '+' (by decide) (by decide) (by decide) a
+  · show (tokens (safelyQuoteBy quoteSafeQ a)).count (.raw '+') = _
+    rw [quoteBy_tokens safeSet_quoteSafeQ]
+    generalize tokens a = ts
+    induction ts with
+    | nil => rfl
+    | cons t r ih =>
+      rw [quoteToksBy_cons, List.count_append, ih, List.count_cons]
+      cases t with
+      | raw c =>
+        by_cases hq : quoteSafeQ c = true
+        · simp [quoteTokBy, hq, List.count_cons]; omega
+        · have hne : c ≠ '+' := by rintro rfl; exact hq (by decide)
+          have h0 : ((utf8 c).map escOfByte).count (.raw '+') = 0 := by
+            rw [List.count_eq_zero]; intro hm
+            simp only [List.mem_map] at hm
+            obtain ⟨b, _, hb⟩ := hm
+            simp [escOfByte] at hb
+          simp only [quoteTokBy, hq, Bool.false_eq_true, if_false, h0]
+          simp [hne]
+      | esc h1 h2 => simp [quoteTokBy]
+      | stray => simp [quoteTokBy, safeSet_quoteSafeQ.pct_false]
+  · exact safelyQuoteBy_append_sep ⟨by decide, by decide⟩ (by decide) a b
+  · exact safelyQuoteBy_append_esc _ (by decide) (by decide) a b
+
 /-! ## the four configurations the public API uses
 
 `safely_unquote_auth_item`, `_path`, `_query_item`, `_fragment` are `safelyUnquote` at the four
@@ -594,8 +756,9 @@ theorem api_unquote_contract (U : List UInt8) (h : U ∈ apiTables) (s : Str) :
     upper_commutes_unquote U hU s, fun b hb hsp => unquote_delimiters_table U hU hA b hb hsp s⟩
 
 /-- the delimiters of each component, by name (the lists of the table obligations
-`tables_*_delims`): `@ : / ? #` for a userinfo item, `/ ? #` for a path, `& = #` for a query
-item stay raw where raw and escaped where escaped (a fragment has no delimiter of its own;
+`tables_*_delims`): `@ : / ? #` for a userinfo item, `/ ? #` for a path, `& = #` and `+` for a
+query item stay raw where raw and escaped where escaped (counting form; the positional form is
+`api_delimiters_positional`; a fragment has no delimiter of its own;
 `unquote_delimiters_table` covers every further byte of each table, `[ ]` of the userinfo
 table included) -/
 theorem api_delimiters (s : Str) :
@@ -603,7 +766,7 @@ theorem api_delimiters (s : Str) :
       (tokens (safelyUnquote Gen.Quote.unsafeForAuthItem s)).count (.raw d) = (tokens s).count (.raw d)) ∧
     (∀ d ∈ ['/', '?', '#'],
       (tokens (safelyUnquote Gen.Quote.unsafeForPath s)).count (.raw d) = (tokens s).count (.raw d)) ∧
-    (∀ d ∈ ['&', '=', '#'],
+    (∀ d ∈ ['&', '=', '#', '+'],
       (tokens (safelyUnquote Gen.Quote.unsafeForQueryItem s)).count (.raw d) = (tokens s).count (.raw d)) := by
   have key : ∀ (U : List UInt8), (0x25 : UInt8) ∈ U → ∀ ds : List Char,
       (∀ d ∈ ds, d.toNat < 0x80 ∧ d ≠ ' ' ∧ UInt8.ofNat d.toNat ∈ U) →
@@ -613,6 +776,50 @@ theorem api_delimiters (s : Str) :
     exact unquote_delimiters U hU d h1 h2 h3 s
   obtain ⟨p1, p2, p3, _⟩ := tables_percent_unsafe
   exact ⟨key _ p1 _ (by decide), key _ p2 _ (by decide), key _ p3 _ (by decide)⟩
+
+/-- the named delimiters, **positional form**: each function, applied to a string cut at the
+raw occurrences of one of its delimiters, gives the function applied to the pieces, cut at the
+same delimiter -/
+theorem api_delimiters_positional (s : Str) :
+    (∀ d ∈ ['@', ':', '/', '?', '#', '[', ']'],
+      splitOn (safelyUnquote Gen.Quote.unsafeForAuthItem s) d =
+        (splitOn s d).map (safelyUnquote Gen.Quote.unsafeForAuthItem)) ∧
+    (∀ d ∈ ['/', '?', '#'],
+      splitOn (safelyUnquote Gen.Quote.unsafeForPath s) d =
+        (splitOn s d).map (safelyUnquote Gen.Quote.unsafeForPath)) ∧
+    (∀ d ∈ ['&', '=', '#', '+'],
+      splitOn (safelyUnquote Gen.Quote.unsafeForQueryItem s) d =
+        (splitOn s d).map (safelyUnquote Gen.Quote.unsafeForQueryItem)) := by
+  have key : ∀ (U : List UInt8) (ds : List Char),
+      (∀ d ∈ ds, Sep d ∧ d ≠ ' ' ∧ d.toNat < 0x80 ∧ UInt8.ofNat d.toNat ∈ U) →
+      ∀ d ∈ ds, splitOn (safelyUnquote U s) d = (splitOn s d).map (safelyUnquote U) := by
+    intro U ds hds d hd
+    obtain ⟨h1, h2, h3, h4⟩ := hds d hd
+    exact splitOn_safelyUnquote U h1 h2 h3 h4 s
+  refine ⟨key _ _ ?_, key _ _ ?_, key _ _ ?_⟩ <;>
+  · intro d hd
+    simp only [List.mem_cons, List.not_mem_nil, or_false] at hd
+    rcases hd with rfl | rfl | rfl | rfl | rfl | rfl | rfl <;>
+      exact ⟨⟨by decide, by decide⟩, by decide, by decide, by decide⟩
+
+/-- **the model follows the order of the code**: each `safely_unquote_*` function computed the
+way `unquote` does — decode the escapes (`_unquote_impl` + `.decode("utf-8", "ural.requote")` per
+ASCII run), THEN `NON_PRINTABLE_RE.sub` on the decoded string, THEN `.replace(" ", "%20")`
+(`safelyUnquotePost`, `Model/Quote.lean`) — is the function `safelyUnquote` of the theorems
+above, which escapes the raw non-printable characters before decoding -/
+theorem api_code_order (U : List UInt8) (h : U ∈ apiTables) (s : Str) :
+    safelyUnquotePost U s = safelyUnquote U s :=
+  safelyUnquotePost_eq U (api_tables_ok U h).2 s
+
+/-- the case the equality is about: a raw no-break space between two halves of an escaped
+character, and in front of a continuation byte -/
+example :
+    decodeOnly Gen.Quote.unsafeForPath "%E2\u00a0%A0 %C2%A0%41".toList = "%E2\u00a0%A0 \u00a0A".toList ∧
+    safelyUnquotePost Gen.Quote.unsafeForPath "%E2\u00a0%A0 %C2%A0%41".toList =
+      "%E2%C2%A0%A0%20%C2%A0A".toList ∧
+    safelyUnquote Gen.Quote.unsafeForPath "%E2\u00a0%A0 %C2%A0%41".toList =
+      "%E2%C2%A0%A0%20%C2%A0A".toList := by
+  decide +kernel
 
 /-- the functions `canonicalize_url`'s model applies to the components are these four
 configurations (and `safely_quote`, `upper_quoted` themselves): the theorems above are about
@@ -642,13 +849,20 @@ theorem qsl_contract (l : List (Str × Option Str)) :
   obtain ⟨_, _, hA, _⟩ := tables_ascii
   have hp := unquote_pct _ hU
   have hi := unquote_idempotent _ hU hA
-  have hq := quote_unquote_idempotent _ hU hA
+  have hq : ∀ s, quoteQueryItem (safelyUnquote Gen.Quote.unsafeForQueryItem (quoteQueryItem
+      (safelyUnquote Gen.Quote.unsafeForQueryItem s))) =
+      quoteQueryItem (safelyUnquote Gen.Quote.unsafeForQueryItem s) :=
+    quoteBy_unquote_idempotent safeSet_quoteSafeQ _ hU hA
+  have hqp : ∀ s, pctStr (quoteQueryItem s) = pctStr s :=
+    fun s => (quoteBy_contract safeSet_quoteSafeQ s).2.1
+  have hqi : ∀ s, quoteQueryItem (quoteQueryItem s) = quoteQueryItem s :=
+    fun s => (quoteBy_contract safeSet_quoteSafeQ s).2.2.2.2.2
   simp only [Canonicalize.unquoteQsl, Canonicalize.quoteQsl, Canonicalize.unquoteQueryItem,
     List.map_map]
   refine ⟨?_, ?_, ?_, ?_, ?_⟩ <;>
   · apply List.map_congr_left
     rintro ⟨k, v⟩ _
-    cases v <;> simp [hp, hi, hq, quote_pct, quote_idempotent]
+    cases v <;> simp [hp, hi, hq, hqp, hqi]
 
 /-! ## non-vacuity: the four regenerated configurations on a string with every kind of token -/
 
